@@ -51,23 +51,24 @@ func (a *Actor) String() string { return fmt.Sprintf("a%d", a.Idx) }
 
 // Params is everything drawn per case that defines the world.
 type Params struct {
-	KeySeed    uint64
-	NActors    int
-	States     []state.IdentityState
-	Balances   []*big.Int
-	Stakes     []*big.Int
-	Profile    string // "v12" | "v9"
-	SwitchRng  uint64
-	DelegRng   uint64
-	DiscrRng   uint64
-	SnapRng    uint64
-	Start      int64 // unix seconds of virtual start
-	CeremonyIn int64 // seconds from start to the first validation
-	Interval   int64 // seconds between validations (ValidationInterval)
-	LotteryDur int64
-	ShortDur   int64
-	LongDur    int64
-	Outcome    uint64 // seed of the scripted validation outcome table
+	KeySeed     uint64
+	NActors     int
+	States      []state.IdentityState
+	Balances    []*big.Int
+	Stakes      []*big.Int
+	Profile     string // "v12" | "v9"
+	SwitchRng   uint64
+	DelegRng    uint64
+	DiscrRng    uint64
+	SnapRng     uint64
+	Start       int64 // unix seconds of virtual start
+	CeremonyIn  int64 // seconds from start to the first validation
+	Interval    int64 // seconds between validations (ValidationInterval)
+	LotteryDur  int64
+	ShortDur    int64
+	LongDur     int64
+	Outcome     uint64 // seed of the scripted validation outcome table
+	WellBehaved int    // percent of identities that pass a validation with full marks (0 = the default third)
 }
 
 func (p Params) String() string {
